@@ -74,4 +74,56 @@ theorem C18_indent_ignores_orig (o : IndentOpts) (ts : List ITok) (origCols orig
 example : indentRun { cols := 4 } [] [.stmt, .openB, .stmt, .vopen, .stmt, .vclose, .caseL, .closeB] =
     [some 1, some 1, some 5, none, some 9, none, some 1, some 1] := by decide
 
+/-! ### brace-style offsets (`indent_brace`, `indent_switch_case`) -/
+
+theorem topIndent_framesOf (o : IndentOpts2) (ks : List BKind) : topIndent (framesOf o ks) = colIn o ks := by
+  cases ks <;> simp [framesOf, topIndent, colIn]
+
+theorem topBrace_framesOf (o : IndentOpts2) (ks : List BKind) : topBrace (framesOf o ks) = braceCol o ks := by
+  cases ks <;> simp [framesOf, topBrace, braceCol]
+
+theorem tail_framesOf (o : IndentOpts2) (ks : List BKind) : (framesOf o ks).tail = framesOf o ks.tail := by
+  cases ks <;> simp [framesOf]
+
+/-- refinement: the frame machine computes exactly the columns that the stack of block kinds determines -/
+theorem C18_machine_refines_kinds (o : IndentOpts2) (ks : List BKind) (ts : List ITok2) :
+    indentRun2 o (framesOf o ks) ts = absRun o ks ts := by
+  induction ts generalizing ks with
+  | nil => rfl
+  | cons t ts ih =>
+    cases t with
+    | stmt => simp only [indentRun2, indentStep2, absRun, topIndent_framesOf]; rw [ih ks]
+    | openK k =>
+      simp only [indentRun2, indentStep2, absRun, topIndent_framesOf]
+      have : ({ indent := colIn o ks + offB o k + o.cols + offIn o k, braceIndent := colIn o ks + offB o k } : Frame) :: framesOf o ks
+          = framesOf o (k :: ks) := by simp [framesOf, colIn, braceCol]
+      rw [this, ih (k :: ks)]; simp [braceCol]
+    | vopen =>
+      simp only [indentRun2, indentStep2, absRun, topIndent_framesOf]
+      have : ({ indent := colIn o ks + o.cols, braceIndent := colIn o ks } : Frame) :: framesOf o ks = framesOf o (.virt :: ks) := by
+        simp [framesOf, colIn, braceCol, offB, offIn]
+      rw [this, ih (.virt :: ks)]
+    | closeB => simp only [indentRun2, indentStep2, absRun, topBrace_framesOf, tail_framesOf]; rw [ih ks.tail]
+    | vclose => simp only [indentRun2, indentStep2, absRun, tail_framesOf]; rw [ih ks.tail]
+    | caseL => simp only [indentRun2, indentStep2, absRun, topBrace_framesOf]; rw [ih ks]
+
+/-- closed form: a statement inside the blocks `ks` starts at `1 + depth*indent_columns + (statement bodies)*indent_brace +
+    (switch bodies)*indent_switch_case` -/
+theorem C18_column_closed_form_offsets (o : IndentOpts2) (ks : List BKind) :
+    colIn o ks = 1 + ks.length * o.cols + nStmt ks * o.brace + nSwitch ks * o.switchCase := by
+  induction ks with
+  | nil => simp [colIn, nStmt, nSwitch]
+  | cons k ks ih =>
+    cases k <;> simp only [colIn, offB, offIn, nStmt, nSwitch, ih, List.length_cons, Nat.succ_mul, Nat.add_mul, Nat.one_mul] <;> omega
+
+/-- same block ⇒ same column; one level deeper in a statement body ⇒ exactly `indent_columns + indent_brace` further right -/
+theorem C18_nested_offsets (o : IndentOpts2) (ks : List BKind) :
+    absRun o ks [.stmt, .openK .stmt, .stmt, .stmt, .closeB, .stmt] =
+      [some (colIn o ks), some (colIn o ks + o.brace), some (colIn o ks + o.brace + o.cols), some (colIn o ks + o.brace + o.cols),
+       some (colIn o ks + o.brace), some (colIn o ks)] := by
+  simp [absRun, colIn, braceCol, offB, offIn]
+
+example : indentRun2 { cols := 4, brace := 2, switchCase := 3 } [] [.stmt, .openK .plain, .stmt, .openK .switch, .caseL, .stmt, .closeB, .closeB] =
+    [some 1, some 1, some 5, some 7, some 10, some 14, some 7, some 1] := by decide
+
 end Unc
